@@ -19,6 +19,10 @@ for f in ("cutil", "default_records", "legacy_records", "memory_records"):
     m = PyxModule(root, f"aiokafka/record/_crecords/{f}.pyx")
     for q, fi in m.funcs.items():
         out[q] = alpha.function_locals(fi.node)
+allq = sorted(out)
 out = {q: v for q, v in out.items() if v}
+out["__functions__"] = allq
+from sa import normalise  # noqa: E402
+out["__comprehensions__"] = {q: normalise.count_comprehensions(fi.node) for q, fi in repo.funcs.items() if normalise.count_comprehensions(fi.node)}
 json.dump(out, open(alpha.BASELINE, "w"), indent=0, sort_keys=True)
 print("functions with locals:", len(out))
